@@ -40,11 +40,12 @@ class Ctx(object):
 class Space(object):
     """One search space: a configuration, its roots, an alphabet and a depth."""
 
-    def __init__(self, cfg, alphabet, depth, roots=((),), name=None, check_all_transitions=True, dedup=True):
+    def __init__(self, cfg, alphabet, depth, roots=((),), name=None, check_all_transitions=True, dedup=True, slow=1):
         self.check_all_transitions = check_all_transitions
         #: dedup=False: every history is its own state (plain enumeration of all sequences);
         #: used for small alphabets with observe / clear / reopen letters
         self.dedup = dedup
+        self.slow = slow  # factor applied to the watchdog time-outs (size letters)
         self.cfg = cfg
         self.alphabet = list(alphabet)
         self.depth = depth
@@ -299,8 +300,10 @@ def run(check, tier, seed, workers=None, time_cap=None, stop_on_violation=True, 
     return res
 
 
-CHUNK_TIMEOUT = float(os.environ.get("VERIF_CHUNK_TIMEOUT", "600"))
-ONE_TIMEOUT = float(os.environ.get("VERIF_ONE_TIMEOUT", "60"))
+# generous on purpose: a slow but finite execution on a loaded machine must never be taken
+# for a hang (spaces with very large letters raise them further, see Space.slow)
+CHUNK_TIMEOUT = float(os.environ.get("VERIF_CHUNK_TIMEOUT", "1500"))
+ONE_TIMEOUT = float(os.environ.get("VERIF_ONE_TIMEOUT", "300"))
 
 
 def _isolated(check, space, hist):
@@ -315,7 +318,7 @@ def _isolated(check, space, hist):
 
     p = ctx_.Process(target=target)
     p.start()
-    p.join(ONE_TIMEOUT)
+    p.join(ONE_TIMEOUT * getattr(space, "slow", 1))
     if p.is_alive():
         p.kill()
         p.join()
@@ -333,7 +336,7 @@ def _imap_guarded(pool, check, si, space, chunks, res, log):
     idx = 0
     while True:
         try:
-            out = it.next(timeout=CHUNK_TIMEOUT)
+            out = it.next(timeout=CHUNK_TIMEOUT * getattr(space, "slow", 1))
         except StopIteration:
             return
         except multiprocessing.TimeoutError:
